@@ -16,6 +16,13 @@ Two families of cases, both through the REAL katdal code:
     label, compscan_index, target_index of the opened data set are compared event by event and dump by dump with
     the model pipeline `segment` (tie), and checked against "every dump has exactly one scan, compscan and target
     index, scans and compscans numbered consecutively from zero in time order" (property).
+(c) concatenation: 2-3 in-memory v4 data sets with different start times, some carrying their own prior selection,
+    handed in random order to ConcatenatedDataSet; the run-on scan_index / compscan_index sensors of the parts, the
+    concatenated sensors and their per-dump values are compared with the model `run_on` / `concat_index` (tie) and
+    with the statement (property: numbered consecutively from zero in time order over the whole concatenation,
+    no index shared by two physical scans, state / label / target of every dump those of its part); then the
+    iterators of (a) with prior histories on the whole, the model and the spec being given the structure the
+    statement demands (computed from the parts as opened), not the one read back from the concatenation.
 """
 import logging
 import os
@@ -35,12 +42,20 @@ RULE = ('(a) random observations of C02 (3-16 dumps) x prior histories of 0-5 se
         'target event lists (2-7 activity events, 0-4 labels, 1-4 target events at fractional dump positions: '
         'before, inside, on the edge of a dump) written as synthetic MVF v4 (telstate + chunk store), HDF5 v3, v2 '
         'and v1 files and opened through the real format classes; a case is one file; non-trivial when it has at '
-        'least two scans; plus the iterators of (a) on every such data set.')
+        'least two scans; plus the iterators of (a) on every such data set. (c) 2-3 such v4 data sets with different '
+        'start times (back to back or with gaps), 65% of them carrying their own prior selection of 1-2 select() '
+        'calls (biased towards scans / compscans / dumps / targets / timerange criteria) when they are handed, in '
+        'random order, to katdal.concatdata.ConcatenatedDataSet; a case is one concatenation (structure: run-on '
+        'index sensors, numbering, one scan / compscan / target per dump) or one (concatenation, prior history on '
+        'the whole, iterator); non-trivial when the concatenation has at least three scans and a part carried a '
+        'selection.')
 ASSUMPTIONS = ['single spectral window / subarray; names cross the wire as integer ids (as in C02)',
                'early exit from the generator (break) is excluded: the docstring promises the restore only on exhaustion',
                'the loop body does not call select() itself other than through a nested generator',
                'the categorical sensors handed to the segmentation pipeline are the ones produced by the real '
-               'sensor_to_categorical (C10) on the written events; the pipeline after that point is modelled']
+               'sensor_to_categorical (C10) on the written events; the pipeline after that point is modelled',
+               'concatenations: the parts are data sets of one format class with one dump period on a common dump grid, '
+               'non-overlapping in time, and targets are identified by name (katpoint catalogue merging is not modelled)']
 
 STATES, LABELS = c02.STATES, c02.LABELS
 WHICH = {'scans': 0, 'compscans': 1}
@@ -176,11 +191,11 @@ def check_public(ctx, ob, got, tk, fk, bk, what, sg, case):
     return True
 
 
-def compare_items(ctx, ob, impl_ys, model_ys, spec_items, before, outer, inner, hcls, case, level=0):
+def compare_items(ctx, ob, impl_ys, model_ys, spec_items, before, outer, inner, hcls, case, level=0, prefix=''):
     """one level of yields: tie (vs model) and property (vs spec)"""
     it = outer if level == 0 else inner
     tag = '' if level == 0 else 'inner_'
-    sg = sig(outer, inner, hcls, tag)
+    sg = prefix + sig(outer, inner, hcls, tag)
     ok = True
     # ---- tie
     if [y['index'] for y in impl_ys] != [m[0] for m in model_ys]:
@@ -224,8 +239,11 @@ def compare_items(ctx, ob, impl_ys, model_ys, spec_items, before, outer, inner, 
     return ok
 
 
-def run_iter_case(ctx, ob, history, mode, cid, note=True):
+def run_iter_case(ctx, ob, history, mode, cid, note=True, extra=None, sig_prefix=''):
     outer, inner = mode
+
+    def psig(o, i, h, sym):      # signatures of stream (c) are kept apart by a prefix
+        return sig_prefix + sig(o, i, h, sym)
     st_w, lb_w = obs_cds(ob.d)
     payload = [ob.wire(), st_w, lb_w, [c02.wire_call(c) for c in history], 1 if inner else 0, WHICH[outer],
                WHICH[inner] if inner else 0]
@@ -237,6 +255,8 @@ def run_iter_case(ctx, ob, history, mode, cid, note=True):
     hcls = history_class(history, statuses)
     case = dict(cid=cid, mode=[outer, inner], obs=getattr(ob, 'spec', None),
                 history=[c02.describe_call(c) for c in history], statuses=statuses)
+    if extra:
+        case.update(extra)
     d = ob.fresh()
     with warnings.catch_warnings():
         warnings.simplefilter('ignore')
@@ -249,7 +269,7 @@ def run_iter_case(ctx, ob, history, mode, cid, note=True):
                 ctx.count('prior_history_raised')
                 return
         before = observe_state(ob, d)
-        if not compare_state(ctx, ob, before, ms0, 'before', sig(outer, inner, hcls, 'prior_history'), case):
+        if not compare_state(ctx, ob, before, ms0, 'before', psig(outer, inner, hcls, 'prior_history'), case):
             return
         if model[0] != 0:
             # the model says the generator raises (IndexError): the implementation must raise too
@@ -258,37 +278,37 @@ def run_iter_case(ctx, ob, history, mode, cid, note=True):
             except Exception:      # noqa: BLE001
                 ctx.count('iteration_raised_in_both')
                 return
-            ctx.disagree(sig(outer, inner, hcls, 'model_raises_impl_not'), case, 'ok', model,
+            ctx.disagree(psig(outer, inner, hcls, 'model_raises_impl_not'), case, 'ok', model,
                          'the model predicts an exception', kind='tie')
             return
         try:
             ys, after = run_iter_impl(ob, d, outer, inner)
         except Exception as e:      # noqa: BLE001
-            ctx.disagree(sig(outer, inner, hcls, 'raises'), case, repr(e), 'ok', 'the generator raised')
+            ctx.disagree(psig(outer, inner, hcls, 'raises'), case, repr(e), 'ok', 'the generator raised')
             return
     ctx.traces_validated += 1
     ctx.count('iter=%s%s' % (outer, ('/' + inner) if inner else ''))
     ctx.count('history=' + hcls)
     ctx.count('yields', len(ys))
-    ok = compare_items(ctx, ob, ys, model[1], spec, before, outer, inner, hcls, case)
+    ok = compare_items(ctx, ob, ys, model[1], spec, before, outer, inner, hcls, case, prefix=sig_prefix)
     if ok and inner:
         for y, m, s in zip(ys, model[1], spec):
             yb = y['st']
-            ok &= compare_items(ctx, ob, y['inner'], m[4], s[5], yb, outer, inner, hcls, case, level=1)
+            ok &= compare_items(ctx, ob, y['inner'], m[4], s[5], yb, outer, inner, hcls, case, level=1, prefix=sig_prefix)
             # the inner generator must restore the selection of the outer yield
             for k in ('tk', 'fk', 'bk'):
                 if y['after_inner'][k] != yb[k]:
-                    ctx.disagree(sig(outer, inner, hcls, 'inner_restore:' + k), case, y['after_inner'][k], yb[k],
+                    ctx.disagree(psig(outer, inner, hcls, 'inner_restore:' + k), case, y['after_inner'][k], yb[k],
                                  'selection after the inner generator differs from the selection of the outer yield')
                     ok = False
     # ---- tie on the final state
-    ok &= compare_state(ctx, ob, after, model[2], 'after', sig(outer, inner, hcls, ''), case)
+    ok &= compare_state(ctx, ob, after, model[2], 'after', psig(outer, inner, hcls, ''), case)
     # ---- property: the selection in force before is in force again
     bad = [k for k in ('tk', 'fk', 'bk', 'dumps', 'channels', 'cps', 'shape', 'nts', 'wk', 'flk') if after[k] != before[k]]
     if sorted(after['keys']) != sorted(before['keys']):
         bad.append('keys')
     if bad:
-        ctx.disagree(sig(outer, inner, hcls, 'restore:' + ','.join(bad)), case, {k: after[k] for k in bad},
+        ctx.disagree(psig(outer, inner, hcls, 'restore:' + ','.join(bad)), case, {k: after[k] for k in bad},
                      {k: before[k] for k in bad}, 'selection after exhaustion differs from the selection before iteration')
     if note:
         nsel = sum(before['tk'])
@@ -605,6 +625,300 @@ def run_real(ctx, rseed, n_iter, only=None, note=True):
 
 
 # ---------------------------------------------------------------------------------------------------------------
+# (c) concatenated data sets
+
+CONCAT_SENSORS = [('scan_index', 0), ('compscan_index', 1)]
+
+
+def pristine(d):
+    """Per-dump structure and index sensors of a freshly opened part (whole time axis), as plain Python values."""
+    d.select()
+    out = dict(T=int(d.shape[0]),
+               scan=[int(x) for x in d.sensor['Observation/scan_index']],
+               state=[str(x) for x in d.sensor['Observation/scan_state']],
+               cscan=[int(x) for x in d.sensor['Observation/compscan_index']],
+               label=[str(x) for x in d.sensor['Observation/label']],
+               tname=[str(t.name) for t in d.sensor['Observation/target']])
+    for short, _ in CONCAT_SENSORS:
+        out[short + '_cd'] = cd_wire(d.sensor.get('Observation/' + short), int)
+    return out
+
+
+class ConcatObservation(RealObservation):
+    """C02's adapter over a ConcatenatedDataSet.  The observation structure handed to the model and the spec
+    (per-dump scan / state / compscan / label / target) is NOT read back from the concatenation: it is what the
+    statement demands of it, computed from the parts as they were opened (indices numbered consecutively from zero
+    in time order over the parts; state, label and target of every dump those of the part)."""
+
+    def __init__(self, d, exp):
+        super().__init__(d)
+        self.impl_structure = dict(scan=self.scan, state=self.state, cscan=self.cscan, label=self.label, tgt=self.tgt)
+        names = [str(t.name) for t in d.catalogue.targets]
+        self.tgt_ambiguous = any(names.count(n) != 1 for n in exp['tname'])
+        self.scan, self.state, self.cscan, self.label = exp['scan'], exp['state'], exp['cscan'], exp['label']
+        if not self.tgt_ambiguous:
+            self.tgt = [names.index(n) for n in exp['tname']]
+        self.spec['sc_events'] = list(range(max(self.scan) + 2))
+        self.spec['cs_events'] = list(range(max(self.cscan) + 2))
+        self.spec['real_format'] = 'ConcatenatedDataSet'
+
+
+def gen_part_selection(rng, pob):
+    """Prior selection carried by a part when it is concatenated: 1-2 select() calls, biased towards time criteria
+    (the ones that can hide whole scans / compound scans of the part)."""
+    hist = []
+    for _ in range(rng.choice([1, 1, 2])):
+        if rng.random() < 0.6:
+            k = rng.choice(['scans', 'scans', 'compscans', 'compscans', 'dumps', 'targets', 'timerange'])
+            v, w, f = c02.gen_criterion(rng, pob, k)
+            hist.append([(k, v, w, f)])
+        else:
+            hist.append(c02.gen_call(rng, pob))
+    return hist
+
+
+def gen_concat(cseed):
+    """2-3 v4 event lists, their start offsets (in dumps, chronological) and the order in which the data sets are
+    handed to ConcatenatedDataSet."""
+    rng = random.Random(cseed)
+    k = rng.choice([2, 2, 3])
+    evs = [gen_events(rng, 4) for _ in range(k)]
+    offs, off = [], 0
+    for ev in evs:
+        offs.append(off)
+        off += ev['T'] + rng.choice([0, 0, 1, 3, 10])
+    order = list(range(k))
+    rng.shuffle(order)
+    return rng, evs, offs, order
+
+
+class ConcatSet:
+    """k in-memory v4 parts (fixtures.v4.build_v4, different start times), possibly carrying their own prior
+    selections, concatenated with katdal.concatdata.ConcatenatedDataSet."""
+
+    def __init__(self, cseed):
+        from fixtures import v4
+        from katdal.concatdata import ConcatenatedDataSet
+        self.rng, self.evs, self.offs, self.order = gen_concat(cseed)
+        self.tmps, self.parts, self.pristine, self.presel, self.hidden = [], [], [], [], []
+        try:
+            for i, (ev, off) in enumerate(zip(self.evs, self.offs)):
+                tmp = v4.scratch_dir('c03')
+                self.tmps.append(tmp)
+                x = v4.build_v4(tmp=tmp, seed=i, ants=('m000', 'm001'), T=ev['T'], F=2, acts=tuple(ev['acts']),
+                                targets=tuple(ev['targets']), labels=tuple(ev['labels']),
+                                cbid=str(1234567890 + 1000 * i), first_timestamp=123.0 + 2.0 * off)
+                self.parts.append(x.d)
+            for i, d in enumerate(self.parts):
+                self.pristine.append(pristine(d))
+            # prior selections carried by the parts
+            for i, d in enumerate(self.parts):
+                applied = []
+                if self.rng.random() < 0.65:
+                    pob = RealObservation(d)
+                    for call in gen_part_selection(self.rng, pob):
+                        try:
+                            with warnings.catch_warnings():
+                                warnings.simplefilter('ignore')
+                                d.select(**c02.py_call(call))
+                            applied.append(c02.describe_call(call))
+                        except Exception:      # noqa: BLE001 - select() rejecting a criterion is C02's business
+                            pass
+                self.presel.append(applied)
+                pr = self.pristine[i]
+                self.hidden.append(dict(scans=len(set(pr['scan'])) - len(d.scan_indices),
+                                        compscans=len(set(pr['cscan'])) - len(d.compscan_indices)))
+            self.d = ConcatenatedDataSet([self.parts[i] for i in self.order])
+        except Exception:
+            self.close()
+            raise
+        # what the statement demands of the concatenation
+        exp = dict(scan=[], state=[], cscan=[], label=[], tname=[], part=[])
+        s0 = c0 = 0
+        for i, pr in enumerate(self.pristine):
+            exp['scan'] += [x + s0 for x in pr['scan']]
+            exp['cscan'] += [x + c0 for x in pr['cscan']]
+            exp['state'] += pr['state']
+            exp['label'] += pr['label']
+            exp['tname'] += pr['tname']
+            exp['part'] += [i] * pr['T']
+            s0 += len(set(pr['scan']))
+            c0 += len(set(pr['cscan']))
+        self.exp = exp
+        self.nscans, self.ncompscans = s0, c0
+
+    def presel_class(self):
+        """none | hides_scan (a part other than the last one hides a whole scan / compscan) | hides_last | other"""
+        if not any(self.presel):
+            return 'none'
+        if any(h['scans'] or h['compscans'] for h in self.hidden[:-1]):
+            return 'hides_scan'
+        if self.hidden[-1]['scans'] or self.hidden[-1]['compscans']:
+            return 'hides_last_only'
+        return 'other'
+
+    def close(self):
+        for t in self.tmps:
+            shutil.rmtree(t, ignore_errors=True)
+
+
+def runs_of(l):
+    """[(value, first, last+1)] of the maximal runs of equal values"""
+    out = []
+    for i, v in enumerate(l):
+        if out and out[-1][0] == v:
+            out[-1][2] = i + 1
+        else:
+            out.append([v, i, i + 1])
+    return out
+
+
+def check_concat_structure(ctx, cs, case, sgn, use_model=True):
+    """The C03 clauses about the structure itself, on the concatenation (whole time axis selected):
+    tie: run-on index sensors of the parts, concatenated index sensor, per-dump indices vs the model;
+    property: indices numbered consecutively from zero in time order, every dump in exactly one scan / compscan /
+    target - the ones of the part it comes from -, no scan shared by two parts, time order of the parts."""
+    D = cs.d
+    D.select()
+    ok = True
+    T = sum(pr['T'] for pr in cs.pristine)
+    if [id(x) for x in D.datasets] != [id(x) for x in cs.parts]:
+        ctx.disagree(sgn + 'symptom=parts_not_in_time_order', case, [cs.parts.index(x) for x in D.datasets],
+                     list(range(len(cs.parts))), 'the parts of the concatenation are not in time order')
+        return False
+    ts = [float(t) for t in D.timestamps[:]]
+    if len(ts) != T or int(D.shape[0]) != T or any(a >= b for a, b in zip(ts, ts[1:])):
+        ctx.disagree(sgn + 'symptom=time_axis', case, [len(ts), int(D.shape[0])], T,
+                     'the dumps of the concatenation are not those of the parts in time order')
+        return False
+    if use_model:
+        outs = ctx.model([[33, [w, [pr[short + '_cd'] for pr in cs.pristine]]] for short, w in CONCAT_SENSORS])
+    else:
+        outs = [None for _ in CONCAT_SENSORS]     # no model binary at all: only the statement is checked
+    for (short, w), out in zip(CONCAT_SENSORS, outs):
+        name = 'Observation/' + short
+        s2 = sgn + 'sensor=%s;' % short
+        per_dump = [int(x) for x in D.sensor[name]]
+        exp = cs.exp['scan' if w == 0 else 'cscan']
+        if out is not None and (out == [-999] or len(out) != 5):
+            # e.g. the last good model binary predates wire_33
+            ctx.count('concat_model_error')
+            out = None
+        if out is not None:
+            m_parts, m_cat, m_dumps, m_numbered, m_separated = out
+            # ---- tie
+            got_parts = [cd_wire(p.sensor.get(name), int) for p in D.datasets]
+            if got_parts != [m[:3] for m in m_parts]:
+                ctx.disagree(s2 + 'symptom=part_sensors_vs_model', case, got_parts, [m[:3] for m in m_parts],
+                             'the run-on %s sensors of the parts differ from the model' % name, kind='tie')
+                ok = False
+            got_cat = cd_wire(D.sensor.get(name), int)
+            if not m_cat or got_cat != m_cat[0][:3]:
+                ctx.disagree(s2 + 'symptom=sensor_vs_model', case, got_cat, m_cat[0][:3] if m_cat else None,
+                             'the concatenated sensor %s differs from the model' % name, kind='tie')
+                ok = False
+            if per_dump != m_dumps:
+                ctx.disagree(s2 + 'symptom=per_dump_vs_model', case, per_dump, m_dumps,
+                             'per-dump values of %s differ from the model' % name, kind='tie')
+                ok = False
+            if m_numbered != 1 or m_separated != 1 or m_dumps != exp:
+                ctx.disagree(s2 + 'symptom=model_not_numbered', case, exp, [m_dumps, m_numbered, m_separated],
+                             'the model numbering is not consecutive / collision-free / the expected one on these '
+                             'parts (theorem C03_concat_numbering says it is)', kind='tie')
+                ok = False
+        # ---- property
+        if len(per_dump) != T:
+            ctx.disagree(s2 + 'symptom=not_every_dump_once', case, len(per_dump), T,
+                         '%s does not give every dump exactly one value' % name)
+            ok = False
+            continue
+        if not py_numbered(per_dump):
+            ctx.disagree(s2 + 'symptom=not_consecutive', case, per_dump, exp,
+                         '%s of the concatenation is not numbered consecutively from zero in time order' % name)
+            ok = False
+        shared = sorted(set(v for v in set(per_dump)
+                            if len(set(cs.exp['part'][i] for i, x in enumerate(per_dump) if x == v)) > 1
+                            or len([r for r in runs_of(per_dump) if r[0] == v]) > 1))
+        if shared:
+            ctx.disagree(s2 + 'symptom=index_shared', case, per_dump, exp,
+                         'index %s of %s is shared by dumps of different parts / separate runs of dumps: those dumps '
+                         'belong to more than one physical scan' % (shared, name))
+            ok = False
+        elif per_dump != exp:
+            ctx.disagree(s2 + 'symptom=wrong_index', case, per_dump, exp,
+                         '%s differs from the numbering of the parts shifted by the number of %ss before them'
+                         % (name, short[:-6]))
+            ok = False
+        attr = [int(x) for x in (D.scan_indices if w == 0 else D.compscan_indices)]
+        if attr != sorted(set(exp)):
+            ctx.disagree(s2 + 'symptom=indices_attribute', case, attr, sorted(set(exp)),
+                         '%ss listed for the whole selection are not 0 .. n-1' % short[:-6])
+            ok = False
+    # state / label / target of every dump are those of its part; event-indexed sensors aligned with the indices
+    for name, key in (('Observation/scan_state', 'state'), ('Observation/label', 'label')):
+        got = [str(x) for x in D.sensor[name]]
+        if got != cs.exp[key]:
+            ctx.disagree(sgn + 'sensor=%s;symptom=per_dump' % key, case, got, cs.exp[key],
+                         'per-dump %s of the concatenation differs from that of the parts' % name)
+            ok = False
+        idx_name = 'Observation/scan_index' if key == 'state' else 'Observation/compscan_index'
+        ev_a, ev_b = [int(e) for e in D.sensor.get(name).events], [int(e) for e in D.sensor.get(idx_name).events]
+        if ev_a != ev_b:
+            ctx.disagree(sgn + 'sensor=%s;symptom=events_not_aligned' % key, case, ev_a, ev_b,
+                         'events of %s and %s differ: the generators look the %s up by event number' % (name, idx_name, key))
+            ok = False
+    got = [str(t.name) for t in D.sensor['Observation/target']]
+    gi = [int(x) for x in D.sensor['Observation/target_index']]
+    cat = [str(t.name) for t in D.catalogue.targets]
+    if got != cs.exp['tname'] or [cat[i] if 0 <= i < len(cat) else None for i in gi] != cs.exp['tname']:
+        ctx.disagree(sgn + 'sensor=target;symptom=per_dump', case, [got, gi, cat], cs.exp['tname'],
+                     'per-dump target / target_index of the concatenation differ from those of the parts')
+        ok = False
+    return ok
+
+
+def run_concat(ctx, cseed, n_iter, only=None, note=True, use_model=True):
+    try:
+        cs = ConcatSet(cseed)
+    except Exception as e:      # noqa: BLE001
+        ctx.count('concat_open_failed:%s' % type(e).__name__)
+        ctx.extra.setdefault('open_failed', []).append(dict(cid=('concat', cseed), error=repr(e)[:200]))
+        return
+    try:
+        pcl = cs.presel_class()
+        sgn = 'concat;parts=%d;presel=%s;' % (len(cs.parts), pcl)
+        case = dict(cid=('concat', cseed, n_iter, -1), events=cs.evs, start_offsets=cs.offs, order=cs.order,
+                    part_selections=cs.presel, hidden=cs.hidden)
+        ctx.traces_validated += 1
+        ctx.count('concat_parts=%d' % len(cs.parts))
+        ctx.count('concat_presel=' + pcl)
+        check_concat_structure(ctx, cs, case, sgn, use_model=use_model)
+        if note and only is None:
+            ctx.note_case(('concat', cseed), nontrivial=cs.nscans >= 3 and pcl != 'none',
+                          sample=dict(events=cs.evs, order=cs.order, part_selections=cs.presel, scans=cs.nscans,
+                                      compscans=cs.ncompscans))
+        if not use_model:
+            return
+        try:
+            ob = ConcatObservation(cs.d, cs.exp)
+        except AssertionError:
+            ctx.count('real_obs_outside_vocabulary')
+            return
+        if ob.tgt_ambiguous:
+            ctx.count('concat_target_names_ambiguous')
+        rrng = cs.rng
+        for j in range(n_iter):
+            n = rrng.choice([0, 1, 1, 2, 3])
+            hist = stack_history(rrng, ob, n)
+            mode = MODES[rrng.randrange(len(MODES))]
+            if only is None or only == j:
+                run_iter_case(ctx, ob, hist, mode, ('concat', cseed, n_iter, j), note=note,
+                              extra=dict(part_selections=cs.presel, order=cs.order), sig_prefix='concat;')
+    finally:
+        cs.close()
+
+
+# ---------------------------------------------------------------------------------------------------------------
 
 def run_witness(ctx, w):
     if w.get('kind') == 'f4':
@@ -624,6 +938,10 @@ def run(ctx):
     logging.getLogger('katdal').setLevel(logging.ERROR)
     logging.getLogger('katpoint').setLevel(logging.ERROR)
     if not ctx.model_ok and not c02.search_without_model(ctx):
+        # no model binary at all (e.g. a fresh build on a tree whose translator item fails): the clauses about the
+        # structure of a concatenation need no model - search them for a concrete failing input
+        for _ in range(ctx.scale(40, 500)):
+            run_concat(ctx, ctx.rng.randrange(1 << 30), 0, use_model=False)
         return
     rng = ctx.rng
     for f in ctx.findings:
@@ -645,6 +963,10 @@ def run(ctx):
     for _ in range(nv1):
         vseed = rng.randrange(1 << 30)
         run_v1_case(ctx, gen_v1(random.Random(vseed)), ('v1', vseed))
+    # (c) concatenated data sets: structure + iterators
+    ncat = ctx.scale(40, 500)
+    for _ in range(ncat):
+        run_concat(ctx, rng.randrange(1 << 30), 3)
     if ctx.tier == 'thorough':
         crosscheck_in_coq(ctx)
 
@@ -692,6 +1014,10 @@ def replay(ctx, doc):
         run_real(ctx, cid[1], cid[2], only=cid[3])
     elif kind == 'v1':
         run_v1_case(ctx, gen_v1(random.Random(cid[1])), tuple(cid))
+    elif kind == 'concat':
+        have_model = ctx.model_ok or c02.search_without_model(ctx)
+        run_concat(ctx, cid[1], cid[2] if len(cid) > 2 else 3, only=cid[3] if len(cid) > 3 else -1,
+                   use_model=have_model)
     elif kind in ('witness', 'witness-seg'):
         for f in ctx.findings:
             run_witness(ctx, f['witness'])
